@@ -1,4 +1,6 @@
 import JokerVerif.Lemmas.McmcKernelLemmas
+import Mathlib.Analysis.SpecialFunctions.Complex.Arg
+import Mathlib.Analysis.Real.Pi.Bounds
 /-!
 # C11 — MCMC continuation targets the same model and posterior
 
@@ -219,6 +221,45 @@ theorem setup_history_consistent {δ : Type} [DecidableEq δ] :
       rcases List.mem_cons.mp hx with rfl | hx
       · exact hkeep _ h1.1
       · exact hall x hx
+
+/-! ## the initial point handed to pymc, and the reference epoch of the samples -/
+
+/-- the default angles (`pymc_ext.angle`) are `arctan2(x1, x2)` of two free variables: started at
+`(sin θ, cos θ)` they give back the chosen sample's angle, for every angle in `(−π, π]` exactly … -/
+theorem start_angle_recovered (θ : ℝ) (h : θ ∈ Set.Ioc (-Real.pi) Real.pi) :
+    Complex.arg (Real.cos θ + Real.sin θ * Complex.I) = θ := by
+  rw [Complex.ofReal_cos, Complex.ofReal_sin]
+  exact Complex.arg_cos_add_sin_mul_I h
+
+/-- … and for every real `θ` (a sample's `M0 ∈ [0, 2π)`) up to a multiple of `2π`, i.e. the same orbit -/
+theorem start_angle_recovered_mod (θ : ℝ) :
+    ((Complex.arg (Real.cos θ + Real.sin θ * Complex.I) : ℝ) : Real.Angle) = (θ : Real.Angle) := by
+  simpa using Complex.arg_cos_add_sin_mul_I_coe_angle (θ : Real.Angle)
+
+/-- the same `M0` read about another reference epoch: the mean anomaly at every epoch `t` moves by `2π (r − r') / P`;
+a point that is to describe the same orbit about `r'` needs `M0 + 2π (r − r') / P` -/
+theorem epoch_shift (F : Fn ℝ) (P M0 t r r' : ℝ) (hP : P ≠ 0) :
+    samplerMeanAnomaly F P M0 (t - r) = samplerMeanAnomaly F P (M0 + 2 * F.pi * (r - r') / P) (t - r') := by
+  unfold samplerMeanAnomaly; field_simp; ring
+
+/-- copying `M0` verbatim to a model built about another epoch changes the phase of every epoch by
+`2π (r' − r) / P ≠ 0`: `setup_mcmc` must refuse such samples (or shift `M0`) -/
+theorem verbatim_M0_other_epoch_differs (ta : ℝ → ℝ → ℝ) (P M0 t r r' : ℝ) (hP : P ≠ 0) (hr : r ≠ r') :
+    samplerMeanAnomaly (realFn ta) P M0 (t - r') - samplerMeanAnomaly (realFn ta) P M0 (t - r) = 2 * Real.pi * (r - r') / P ∧
+    samplerMeanAnomaly (realFn ta) P M0 (t - r') ≠ samplerMeanAnomaly (realFn ta) P M0 (t - r) := by
+  have h1 : samplerMeanAnomaly (realFn ta) P M0 (t - r') - samplerMeanAnomaly (realFn ta) P M0 (t - r) = 2 * Real.pi * (r - r') / P := by
+    unfold samplerMeanAnomaly realFn; field_simp; ring
+  refine ⟨h1, fun h => ?_⟩
+  rw [h, sub_self] at h1
+  have : 2 * Real.pi * (r - r') = 0 := by
+    have := h1.symm
+    rwa [div_eq_zero_iff, or_iff_left hP] at this
+  rcases mul_eq_zero.mp this with h2 | h2
+  · exact (mul_ne_zero two_ne_zero Real.pi_ne_zero) h2
+  · exact hr (sub_eq_zero.mp h2)
+
+example : (0.5 : ℝ) ∈ Set.Ioc (-Real.pi) Real.pi := by
+  constructor <;> linarith [Real.pi_gt_three]
 
 /-- a call with other data than the model was set up for is refused -/
 theorem setup_other_data_refused {δ : Type} [DecidableEq δ] (d0 d : δ) (h : d0 ≠ d) :
